@@ -5,7 +5,7 @@ from core import nats, exc_kind, safe_check
 from props.c02 import bits, _arr, DTYPES, MAXV, gen_pair, rand_sorted
 
 PROPS = ('GambitV.Props.C15', 'GambitV.C15')
-TIE = []
+TIE = [('GambitV.Tie.Metric', 'GambitV.Tie.Metric')]
 RULE = ('triples of k-mer sets: exhaustive over all 32^3 triples of subsets of a 5-element universe; random structured triples '
         '(sizes <= 60, occasionally <= 2000) in mixed integer widths; common-new-element additions; the C15-F1 witness. '
         'Non-trivial = distinct triple of pairwise different non-empty sets.')
